@@ -255,9 +255,11 @@ FAN_T = r"internal/fans\.\(\*(HwMon|File|Cmd)Fan\)\."
 C20_GROUPS = [
     # (group name, regex over "a|b" with a <= b lexicographically)
     ("fan-state-marshalled-by-api-without-lock",
-     r"^internal/api\.getFans?\|(" + FAN_T + r"(GetPwm|GetRpm|SetRpmAvg|SetMinPwm|SetMaxPwm|SetStartPwm|AttachFanRpmCurveData|UpdateFanRpmCurveValue)|internal/controller\.\(\*DefaultFanController\)\.Run)$"),
+     r"^internal/api\.getFans?\|(" + FAN_T + r"(GetPwm|GetRpm|SetRpmAvg|SetMinPwm|SetMaxPwm|SetStartPwm|AttachFanRpmCurveData|UpdateFanRpmCurveValue)|internal/controller\.\(\*DefaultFanController\)\.(Run|RunInitializationSequence)|internal/persistence\.persistence\.LoadFanPwmData\.func)$"),
     ("fan-state-marshalled-by-api-without-lock",
-     r"^(" + FAN_T + r"(GetPwm|GetRpm|SetRpmAvg|SetMinPwm|SetMaxPwm|SetStartPwm|AttachFanRpmCurveData|UpdateFanRpmCurveValue)|internal/controller\.\(\*DefaultFanController\)\.Run)\|internal/fans\.SnapshotFanMap$"),
+     r"^(" + FAN_T + r"(GetPwm|GetRpm|SetRpmAvg|SetMinPwm|SetMaxPwm|SetStartPwm|AttachFanRpmCurveData|UpdateFanRpmCurveValue)|internal/controller\.\(\*DefaultFanController\)\.(Run|RunInitializationSequence))\|internal/fans\.SnapshotFanMap$"),
+    ("fan-state-marshalled-by-api-without-lock",
+     r"^internal/fans\.SnapshotFanMap\|internal/persistence\.persistence\.LoadFanPwmData\.func$"),
     ("fan-cache-fields-written-by-concurrent-readers",
      r"^" + FAN_T + r"(GetPwm|GetRpm|GetRpmAvg|SetRpmAvg)\|" + FAN_T + r"(GetPwm|GetRpm|GetRpmAvg|SetRpmAvg)$"),
     ("curve-value-marshalled-by-api-without-lock",
@@ -384,6 +386,10 @@ fans:
       rpmChannel: 2
     neverStop: false
     curve: lin
+    pwmMap:
+      0: 0
+      64: 128
+      192: 255
   - id: f3
     hwmon:
       platform: chipa
@@ -401,6 +407,10 @@ fans:
     neverStop: false
     curve: mx
     controlAlgorithm: direct
+    pwmMap:
+      0: 0
+      100: 100
+      255: 255
   - id: f5
     cmd:
       setPwm:
@@ -435,11 +445,22 @@ def c20_one_run(binary, work, idx, duration, merged, rng):
         racelog = os.path.join(rd, "race%d" % starts)
         d = l2.Daemon(binary, rd, cfg, tree.root, driver=None, timescale=20, gorace="halt_on_error=0 exitcode=0 history_size=5 log_path=%s" % racelog, name="daemon%d" % starts)
         try:
+            base = "http://127.0.0.1:%d" % p_api
+            # requests start as soon as the API answers, i.e. while the controllers are still starting up (their
+            # start-up code shares maps with the API as well)
+            early = l2.HttpLoad([base + p for p in ("/fan/", "/fan/f2/", "/fan/f4/", "/sensor/", "/curve/")], threads=3)
+            early.start()
             ok = d.wait_for(r"(?s)(Starting controller loop.*){%d}" % nfans, 120)
+            ecounts, _ = early.finish()
+            merged.counters["http_requests_during_start_up"] = merged.counters.get("http_requests_during_start_up", 0) + sum(ecounts.values())
             if not ok:
+                if d.p.poll() is not None and re.search(r"^fatal error: ", d.output(), re.M):
+                    out0 = d.output()
+                    fatal0 = re.search(r"^fatal error: (.*)$", out0, re.M)
+                    merged.add_violation("daemon-aborted:" + re.sub(r"\W+", "-", fatal0.group(1))[:60], "run %d (during start-up): %s\n%s" % (idx, fatal0.group(0), out0[out0.find("fatal error"):][:1500]), {"run": idx})
+                    continue
                 merged.inconclusive.append("run %d: daemon did not reach regulation for all fans: %s" % (idx, d.output()[-800:].replace("\n", " | ")))
                 return
-            base = "http://127.0.0.1:%d" % p_api
             urls = [base + p for p in ("/sensor/", "/sensor/cpu/", "/sensor/board/", "/curve/", "/curve/lin/", "/curve/avg/", "/curve/pidc/", "/alive/", "/fan/f5/")]
             # the fan endpoints iterate the live RPM-curve map; the Go runtime aborts the daemon quickly when they are
             # hit at full rate (known finding), so they are mixed in at a lower rate after the first start
@@ -1205,7 +1226,7 @@ sensors:
 def c09(p, tier, work, t0, replay):
     src, vh = build_vh(work)
     q = tier == "quick"
-    merged = vcheck.run_vh_batches(vh, p, tier, 16 if q else 48, work, 400 if q else 3400)
+    merged = vcheck.run_vh_batches(vh, p, tier, 40 if q else 64, work, 400 if q else 3400, workers=40)  # the cases mostly sleep
     binary = vbuild.build(work, src, ".", os.path.join(work, "fan2go"))
     run_l2(lambda i, r, m: c09_l2_scenario(binary, work, i, r, m), 16 if q else 300, merged, "process-level", 71)
     rule = ("two layers. In-process: real controller.Run + sensor monitor on a closed loop; single faults = component {sensor read, RPM read, PWM read, PWM write, mode write} x kind "
